@@ -7,3 +7,11 @@ package cmd
 func VerifBuildSpecialKeyJson(matches []string, values map[string]string) string {
 	return buildSpecialKeyJson(matches, values)
 }
+
+// VerifParseKeyValue exposes parseKeyValue (how one `-k name=value` argument is split).
+func VerifParseKeyValue(s string) (string, string) { return parseKeyValue(s) }
+
+// VerifParseKeyValuesIntoMap exposes parseKeyValuesIntoMap (the map built from all `-k` arguments).
+func VerifParseKeyValuesIntoMap(kvs ...string) map[string]string {
+	return parseKeyValuesIntoMap(kvs...)
+}
